@@ -691,6 +691,24 @@ func main() {
 	}
 	var wLocal, wRemote *world
 	forEachCase(func(raw json.RawMessage) interface{} {
+		var probe struct {
+			Mode string `json:"mode"`
+		}
+		_ = json.Unmarshal(raw, &probe)
+		if probe.Mode == "hist" {
+			var h histIn
+			must(json.Unmarshal(raw, &h))
+			if h.Routing {
+				if wRemote == nil {
+					wRemote = newWorld(true)
+				}
+				return runHist(wRemote, h)
+			}
+			if wLocal == nil {
+				wLocal = newWorld(false)
+			}
+			return runHist(wLocal, h)
+		}
 		var in cellIn
 		must(json.Unmarshal(raw, &in))
 		if in.TState == "remote" {
